@@ -2,10 +2,138 @@ package main
 
 import (
 	"fmt"
+	"io"
+	"strings"
+	"sync"
 	"time"
 )
 
-func init() { commands["c18-loops"] = c18Loops }
+func init() {
+	commands["c18-loops"] = c18Loops
+	commands["c18-conc"] = c18Conc
+}
+
+// c18Conc: many clients with different Via chains use ONE instance at the same time. Every request is judged on
+// its own chain (Pipeline.tla ViaLoop): chains with the instance's own element are refused with 400 and reach
+// nobody, the others arrive with exactly the client's elements followed by one new element.
+func c18Conc(e *env) {
+	log := &hitLog{}
+	o := startOrigin("O", log, nil, func(p *peer, _ int, _ int, req *wireMsg, w io.Writer) bool {
+		fmt.Fprintf(w, "HTTP/1.1 200 OK\r\nContent-Length: 0\r\nX-Seen-Via: %s\r\nX-Seen-Ex: %s\r\n\r\n",
+			strings.Join(req.get("Via"), ", "), req.first("X-Ex"))
+		return false
+	})
+	defer o.close()
+	f, err := startFwd(fwdCfg{Name: "fwd", Localhost: "allow"})
+	if err != nil {
+		fatal("start: %v", err)
+	}
+	defer f.stop()
+	f.mapName("origin.test:80", o.addr())
+	// learn the instance tag
+	cl, err := dialRaw(f.addr)
+	if err != nil {
+		fatal("dial: %v", err)
+	}
+	cl.send([]byte("GET http://origin.test/prime HTTP/1.1\r\nHost: origin.test\r\n\r\n"))
+	pr, err := cl.recv("GET", 5*time.Second)
+	cl.close()
+	if err != nil {
+		fatal("priming: %v", err)
+	}
+	pf := strings.Fields(pr.first("X-Seen-Via"))
+	if len(pf) != 2 {
+		fatal("priming request arrived with Via %q", pr.first("X-Seen-Via"))
+	}
+	tag := pf[1]
+	classes := []string{"none", "others", "othersTwoLines", "sameNameOtherInst", "ownOnly", "ownThenOther", "otherThenOwn", "ownSecondLine", "ownWithComment"}
+	loop := map[string]bool{"ownOnly": true, "ownThenOther": true, "otherThenOwn": true, "ownSecondLine": true, "ownWithComment": true}
+	const G, N = 16, 60
+	var mu sync.Mutex
+	bad, total := 0, 0
+	var first string
+	report := func(why string) {
+		mu.Lock()
+		bad++
+		if first == "" {
+			first = why
+		}
+		mu.Unlock()
+	}
+	var wg sync.WaitGroup
+	start := make(chan struct{})
+	for g := 0; g < G; g++ {
+		g := g
+		wg.Add(1)
+		go func() {
+			defer wg.Done()
+			c, err := dialRaw(f.addr)
+			if err != nil {
+				report("dial: " + err.Error())
+				return
+			}
+			defer c.close()
+			<-start
+			for i := 0; i < N; i++ {
+				class := classes[(g*7+i)%len(classes)]
+				id := fmt.Sprintf("g%d-i%d", g, i)
+				// chains are made unique per client and iteration, and of different lengths
+				lines := viaLines(class, tag)
+				for k := range lines {
+					lines[k] = strings.Replace(lines[k], "Via: ", "Via: 1.1 hop-"+id+strings.Repeat("x", (g*5+i)%23)+", ", 1)
+				}
+				req := "GET http://origin.test/" + id + " HTTP/1.1\r\nHost: origin.test\r\nX-Ex: " + id + "\r\n"
+				for _, l := range lines {
+					req += l + "\r\n"
+				}
+				c.send([]byte(req + "\r\n"))
+				r, err := c.recv("GET", 8*time.Second)
+				mu.Lock()
+				total++
+				mu.Unlock()
+				if err != nil {
+					report(id + ": no response: " + err.Error())
+					return
+				}
+				if loop[class] {
+					if r.Status != 400 {
+						report(fmt.Sprintf("%s: chain %q (own element present) answered %d, expected 400", id, lines, r.Status))
+					}
+					if hasToken(r.get("Connection"), "close") {
+						c.close()
+						if c, err = dialRaw(f.addr); err != nil {
+							report("dial: " + err.Error())
+							return
+						}
+					}
+					continue
+				}
+				want := append(viaElems(lines), "1.1 "+tag)
+				got := viaElems([]string{"Via: " + r.first("X-Seen-Via")})
+				if r.Status != 200 || r.first("X-Seen-Ex") != id || strings.Join(got, "|") != strings.Join(want, "|") {
+					report(fmt.Sprintf("%s: status %d, origin saw request %q with Via %q, expected %q", id, r.Status, r.first("X-Seen-Ex"), got, want))
+				}
+			}
+		}()
+	}
+	close(start)
+	wg.Wait()
+	time.Sleep(20 * time.Millisecond)
+	for _, h := range log.snapshot() {
+		if h.Kind == "request" && h.Msg != nil {
+			for _, v := range h.Msg.get("Via") {
+				if strings.Count(v, tag) > 1 || (strings.Contains(v, tag) && !strings.HasSuffix(strings.TrimSpace(v), tag)) {
+					report("a request carrying the instance's own element reached the origin: Via " + v)
+				}
+			}
+		}
+	}
+	res := map[string]any{"name": "concurrent-clients", "ok": bad == 0, "requests": total, "bad": bad}
+	if bad > 0 {
+		res["why"] = first
+	}
+	e.emit(res)
+}
 
 // c18Loops builds real forwarding loops out of one and two HTTPProxy instances and checks
 // that the loop stops at its first repetition (Pipeline.tla ViaLoop): 400 to the client,
